@@ -203,7 +203,8 @@ def main():
                     diff = [k for k in set(probs) | set(cprobs) if probs.get(k) != cprobs.get(k)]
                     run.violation("roles_differ_from_reference_rule", dict(desc, canonical_call=cargs, exit=code, canonical_exit=ccode, differing_problems=sorted(diff)[:6], stderr=err))
         # swap property for strong equivalence
-        for a, b in [("m.lp", "k.lp"), ("k.lp", "z.lp"), ("m.lp", "z.lp")]:
+        open(os.path.join(flat, "x.lp"), "w").write("out(X) :- in(X), X > 1. out(X) :- in(X), extra(X), X > 1.\n")
+        for a, b in [("m.lp", "k.lp"), ("k.lp", "z.lp"), ("m.lp", "z.lp"), ("m.lp", "x.lp"), ("x.lp", "k.lp")]:
             for flags in [[], ["--decomposition", "independent"], ["--no-simplify"], ["--no-eq-break", "--formula-representation", "mu"]]:
                 d = scratch("c20s_")
                 try:
